@@ -18,3 +18,8 @@ def vfail(x):
     if t is not None and not isinstance(x, (str, bool)) and x is not None and x > t:
         raise CTRL["exc"]("injected failure above threshold")
     return x
+
+
+def vterm(*args):
+    """uninterpreted function symbol for the C02 term comparison"""
+    return ("call", "VTERM", list(args))
